@@ -1,6 +1,6 @@
 (* Byte strings: a Rust String / &str / Vec<u8> is a [list ascii].
    This file contains definitions and the elementary lemmas about them. *)
-From Coq Require Export List Ascii String NArith Bool Lia.
+From Coq Require Export Ascii String NArith Bool Lia List.
 Export ListNotations.
 Open Scope list_scope.
 
